@@ -43,6 +43,15 @@ def make_workbook(rng):
           'D5': '=A9+10', 'E6': '=SUM(A1:A12)', 'E1': '=IF(G12="x",1,0)', 'E2': '=COUNTBLANK(A1:A12)', 'E3': '=B20&"|"', 'E4': '=SUM(E7,A9,1)',
           'E5': '=MAX(A7:B9,0)'}
     s2 = {'A1': rng.randrange(10, 20), 'A2': '=A1*S1!A1', 'B1': '=S1!B2+A2', 'B2': 'k', 'C1': '=SUM(S1!A1:A3)+A1', 'C2': '=D5+A7', 'C3': '=SUM(A1:A7)+COUNT(S1!A7:A12)'}
+    # SETTINGS cells (T2!G1:G8, constants) and functions that take EVERY optional or small argument - the flag of VLOOKUP, the match type,
+    # positions, counts, digits, the criterion - from a bare reference to one of them: an argument read when the class is made instead
+    # of when it is asked shows as soon as the settings cell is overridden
+    s2.update({'G1': 2, 'G2': 2, 'G3': False, 'G4': 1, 'G5': 0, 'G6': '>1', 'G7': dt.datetime(2024, 1, 31), 'G8': 2,
+               'H1': 1, 'I1': 'one', 'H2': 2, 'I2': 'two', 'H3': 4, 'I3': 'four', 'H4': 8, 'I4': 'eight',
+               'J1': '=VLOOKUP(G1,H1:I4,G2,G3)', 'J2': '=MATCH(G1,H1:H4,G5)', 'J3': '=INDEX(H1:I4,G4,G2)', 'J4': '=ROUND(S1!A2/3,G8)', 'J5': '=LEFT(S1!A5,G4)',
+               'J6': '=IF(G3,"on","off")', 'J7': '=SUMIF(H1:H4,G6)', 'J8': '=EDATE(G7,G4)', 'J9': '=MID(S1!A5,G4,G2)', 'J10': '=XMATCH(G1,H1:H4,G5)',
+               'J11': '=IFERROR(ADDRESS(G4,G2,G4),"e")', 'J12': '=COUNTIFS(H1:H4,G6)', 'J13': '=VLOOKUP(G1+1,H1:I4,2,G3)&"|"&VLOOKUP(3,H1:I4,G2,TRUE)',
+               'J14': '=ROUNDUP(S1!A2,G5)+ROUNDDOWN(S1!A2,G4)'})
     # link cells (a formula that is nothing but one reference), chains of them and random formulas over everything before them:
     # column F on S1 (F1-F4 links, F5-F10 random), column E on T2
     def spell(a, other=False):
@@ -70,7 +79,9 @@ def make_workbook(rng):
 
 
 TARGETS = {0: ['A1', 'A2', 'A3', 'A4', 'A5', 'B1', 'B2', 'B3', 'C1', 'C2', 'C4', 'D2', 'E7', 'A9', 'G12', 'B20', 'F1', 'F2', 'F3', 'F4', 'F4', 'F1', 'F6', 'F8'],
-           1: ['A1', 'A2', 'B1', 'B2', 'C1', 'D5', 'A7', 'E1', 'E2']}
+           1: ['A1', 'A2', 'B1', 'B2', 'C1', 'D5', 'A7', 'E1', 'E2', 'G1', 'G2', 'G3', 'G4', 'G5', 'G6', 'G7', 'G8', 'G3', 'G5', 'H3']}
+SETTINGS = {'G1': [1, 2, 3, 4, 8, 5, 0], 'G2': [1, 2], 'G3': [True, False, 1, 0], 'G4': [1, 2, 3], 'G5': [0, 1], 'G6': ['>1', '<4', '2', '<>8', '>=4'],
+            'G7': [dt.datetime(2024, 1, 31), dt.datetime(2023, 12, 31), dt.datetime(2024, 2, 29)], 'G8': [0, 1, 2, 3], 'H3': [3, 4, 5]}
 
 
 def make_history(rng):
@@ -86,6 +97,9 @@ def make_history(rng):
                 continue
             s = rng.choice([0, 0, 1])
             a = rng.choice(TARGETS[s])
+            if s == 1 and a in SETTINGS:
+                batch.append((s, a, rng.choice(SETTINGS[a]), rng.random() < 0.5))       # a settings cell keeps the kind of value it is a setting for
+                continue
             batch.append((s, a, rng.choice(VALUES), rng.random() < 0.5))
         hist.append(batch)
     return hist
